@@ -50,6 +50,29 @@ def run(tier):
             jobs.append((n, inp["codes"], reps[rng.randrange(len(reps))]))
             if not quick:
                 jobs.append((n, inp["codes"], rng.randrange(1 << (n * (n - 1) // 2))))
+    # partial operator sets on 5 and 6 qubits: m < n elements of a graph state's group pulled back through a known local layer, which is handed to the spec
+    # as a WITNESS (the spec checks that it is sound, so existence is established by the spec; the search must then not answer None)
+    BLOCKS = [[1, 0, 0, 1], [0, 1, 1, 0], [1, 0, 1, 1], [1, 1, 1, 0], [0, 1, 1, 1], [1, 1, 0, 1]]
+    INV = [0, 1, 2, 4, 3, 5]
+    for n in (5, 6):
+        reps, rep_of = orbits.orbit_reps(n)
+        graphs = list(reps[:: (8 if quick else 1)]) + [rng.randrange(1 << (n * (n - 1) // 2)) for _ in range(40 if quick else 800)]
+        for g in graphs:
+            gens = impl.graph_gens(n, g)
+            for m in (1, 2, 3) if quick else (1, 2, 3, 4, 5)[: n - 1]:
+                els = []
+                while len(els) < m:
+                    p = 0
+                    for k in range(n):
+                        if rng.random() < (1.0 / n if len(els) % 2 == 0 else 0.5):
+                            p = impl.mul(p, gens[k])
+                    if p % impl.W2 and p % impl.W2 not in els:
+                        els.append(p % impl.W2)
+                cls = [rng.randrange(6) if rng.random() < 0.6 else 0 for _ in range(n)]
+                P = els
+                for q in range(n):          # pull the operators back through the layer: apply the inverse class on every qubit
+                    P = impl.apply_gates_codes([[w, q, -1] for w in impl.LOCAL_WORDS[INV[cls[q]]]], P)
+                jobs.append((n, [p % impl.W2 for p in P], g, [BLOCKS[c] for c in cls]))
     core.dbg("layer jobs", len(jobs))
     recs = par.pmap(workers.layer_search, jobs)
     files = {"Exported.tla": core.exported_module(impl.lib(), with_tables=False)}
@@ -61,9 +84,11 @@ def run(tier):
         ident = r["res"] == "layer" and all(b == [1, 0, 0, 1] for b in r["blocks"])
         ck.count((r["n"], tuple(r["P"]), r["g"]), not ident and r["g"] != 0)
         bad = cl & CLAUSES
+        if "bad-input" in cl:
+            raise MachineryError(f"harness handed over an unsound witness layer: {r}")
         if bad:
             ck.violation(f"layer {r['n']} {r['P']} {r['g']}", f"find_local_clifford_layer(n={r['n']}, P={r['P']}, graph {r['g']}) -> {r['res']} {r['blocks'] or r['exc']} fails {sorted(bad)}",
-                         {"job": [r["n"], r["P"], r["g"]], "clauses": sorted(bad)})
+                         {"job": [r["n"], r["P"], r["g"], r["witness"]], "clauses": sorted(bad)})
         else:
             ck.accepted()
     ck.cov["results"] = kinds
@@ -82,8 +107,7 @@ def run(tier):
 def replay(path):
     import json
     p = json.load(open(path))["payload"]
-    n, P, g = p["job"]
-    r = workers.layer_search((n, P, g))
+    r = workers.layer_search(tuple(p["job"]))
     v, _ = core.validate_traces("TraceCalls", [r], files={"Exported.tla": core.exported_module(impl.lib(), with_tables=False)}, jvms=1)
     print("replayed:", r["res"], r["blocks"] or r["exc"], "verdict:", sorted(v[0][0]))
     return 1 if v[0][0] & CLAUSES else 0
